@@ -93,6 +93,61 @@ def run_method(prog, cls, name, kwargs, st, hooks, max_paths=50000):
     return fn, it.run(fn, [], kwargs, st=st, self_obj=ObjRef('self', cls))
 
 
+MODELLED_FIELDS = ('xmin', 'ymin', 'bin_size_x', 'bin_size_y', 'bins_per_side', 'path_count',
+                   'grid', 'adjacents', 'lookup', 'vertices', 'reverse')
+
+
+def check_history_state(ck, cls):
+    """The model of the index is the field vocabulary of base_state(): grid, lookup, adjacents,
+    geometry.  A field outside it that nearest/remove_path (or the methods they reach through
+    self) *store* and that nearest *reads* is state kept across calls - a memo, a cursor: the
+    answer then depends on the history of queries, and whether that state is kept valid under
+    removals is not something the per-call shape analysis below sees (it would start every call
+    from the class-level default).  Stop rather than pass."""
+    def reach(name):
+        fn0 = cls.lookup(name)
+        seen, todo = {}, [fn0] if fn0 is not None else []
+        while todo:
+            f = todo.pop()
+            if f.qualname in seen:
+                continue
+            seen[f.qualname] = f
+            for n in ast.walk(f.node):
+                if isinstance(n, ast.Call) and isinstance(n.func, ast.Attribute) and \
+                        isinstance(n.func.value, ast.Name) and n.func.value.id == 'self':
+                    m = cls.lookup(n.func.attr)
+                    if m is not None:
+                        todo.append(m)
+        return list(seen.values())
+
+    def attrs(fns, ctx):
+        out = {}
+        for f in fns:
+            for n in ast.walk(f.node):
+                if isinstance(n, ast.Attribute) and isinstance(n.value, ast.Name) and \
+                        n.value.id == 'self' and isinstance(n.ctx, ctx):
+                    out.setdefault(n.attr, f.loc(n))
+                elif isinstance(n, ast.Call) and isinstance(n.func, ast.Name) and \
+                        n.func.id in (('setattr',) if ctx is ast.Store else ('getattr', 'hasattr')) \
+                        and len(n.args) >= 2 and isinstance(n.args[0], ast.Name) and \
+                        n.args[0].id == 'self':
+                    nm = n.args[1].value if isinstance(n.args[1], ast.Constant) else '<computed>'
+                    out.setdefault(nm, f.loc(n))
+        return out
+    near, rem = reach('nearest'), reach('remove_path')
+    stored = attrs(near + rem, ast.Store)
+    read = attrs(near, ast.Load)
+    kept = sorted(a for a in stored if a in read and a not in MODELLED_FIELDS)
+    ck.saw('fields', 'stored by nearest/remove_path: %s' % (sorted(stored) or 'none'))
+    if kept:
+        raise AnalysisError(
+            'spatial_grid.Index.nearest consults self.%s (%s), which nearest/remove_path store '
+            '(%s): the answer depends on earlier calls (a remembered result, a cursor), and '
+            'whether that state stays valid when paths are removed is outside the per-call model '
+            'of this check (fields %s)' % (kept[0], read[kept[0]], stored[kept[0]],
+                                           ', '.join(MODELLED_FIELDS)))
+
+
 def cell_form(x, y, xmin, ymin, bsx, bsy, query=False):
     xb = mk_func('MIN', mk_func('FLOOR', (x - xmin) / bsx), B - 1)
     yb = mk_func('MIN', mk_func('FLOOR', (y - ymin) / bsy), B - 1)
@@ -869,6 +924,7 @@ def run(ck, prog, tier):
     poly.INT_VARS.clear()
     try:
         poly.INT_VARS.update(['B', 'PC', 'k', 'p'])
+        check_history_state(ck, cls)
         check_adjacents(ck, prog, cls, tier == 'thorough')
         check_init(ck, prog, cls)
         check_nearest(ck, prog, cls)
